@@ -11,7 +11,12 @@ Line protocol of the C20 driver.
       one run of the regenerated save program on a store file holding <old>, writing <new>, with the
       file-size limit k (RLIMIT_FSIZE): `kill` = the process dies at the write that crosses the limit,
       `efbig` = that write returns an error after k bytes and the procedure runs on.
-      -> target=<hex|-|absent> tmps=<hex;hex|none> err=<0|1> verdict=<old|new|empty|absent|other>
+      -> target=<hex|-|absent> tmps=<hex;hex|none> err=<0|1> link=<0|1> dest=<hex|none> verdict=<old|new|empty|absent|other>
+  save <mode> <k> <oldhex> <newhex> <reg|link> <none|fixed|pattern> <leftoverhex>
+      the same with the store path being a symbolic link and/or a left-over file next to the store
+  hist <reg|link> <none|fixed|pattern> <leftoverhex> <mode> <k> <oldhex> <newhex> <new2a> <new2b>
+      save 1 cut at byte k, restart, one more change saved without fault
+      -> step1=<old|new|..> + the fields of `save` for the final state (verdict old = new2a, new = new2b)
   stop <tokens>
       tokens: A (API change, acknowledged)  W (synctest.Wait)  T (sleep one cool-down)  C (cancel)  S (Stop)
       -> disks=<v,v,..> acked=<n> lost=<0|1>   (every store version the file can hold when Stop returns)
@@ -35,21 +40,56 @@ def verdict (c : Option Bytes) (old new : Bytes) : String :=
   | none => "absent"
   | some d => if d == old then "old" else if d == new then "new" else if d.isEmpty then "empty" else "other"
 
-def doSave (mode : String) (k : Nat) (old new : Bytes) : String :=
+/-- the directory before the save: store kind (`reg` | `link`) and a left-over file next to the store
+(`none` | `fixed` = `<store>.tmp` | `pattern` = `<store>.<digits>.tmp`) with content `lo` -/
+def mkFS (old : Bytes) (kind leftover : String) (lo : Bytes) : FS :=
+  let base : FS := if kind == "link" then initLinkFS old else initFS old
+  match leftover with
+  | "fixed" => { base with inodes := base.inodes ++ [⟨lo, true⟩], tmps := [(0, 1)] }
+  | "pattern" => { base with inodes := base.inodes ++ [⟨lo, true⟩], tmps := [(7, 1)] }
+  | _ => base
+
+def showFS (r : Run) (old new : Bytes) : String :=
+  let c := afterKill r.fs
+  let tm := tmpContents r.fs
+  let tms := if tm.isEmpty then "none" else String.intercalate ";" tm
+  let dest := match r.fs.dest with
+    | none => "none"
+    | some i => match r.fs.inodes[i]? with | some ino => toHexField ino.cur | none => "dangling"
+  s!"target={hexOpt c} tmps={tms} err={if r.err then 1 else 0} link={if r.fs.isLink then 1 else 0} dest={dest} verdict={verdict c old new}"
+
+/-- one save, cut at byte `k` (`kill`: the process dies there; `efbig`: the write fails and the run goes on) -/
+def runCut (prog : List Stmt) (mode : String) (k : Nat) (new : Bytes) (fs : FS) : Option Run :=
+  match writeIndex prog 0 with
+  | none => none
+  | some wi =>
+    let cut := k < new.length
+    let fault : Fault := if cut then some (wi, k) else none
+    let stop : Option Nat := if cut && mode == "kill" then some wi else none
+    some (finalRun new fault stop prog 0 (startRun fs))
+
+def doSave (mode : String) (k : Nat) (old new : Bytes) (kind leftover : String) (lo : Bytes) : String :=
   match saveProg? with
   | none => "gen-undecodable"
   | some prog =>
-    match writeIndex prog 0 with
+    match runCut prog mode k new (mkFS old kind leftover lo) with
     | none => "no-write-in-program"
-    | some wi =>
-      let cut := k < new.length
-      let fault : Fault := if cut then some (wi, k) else none
-      let stop : Option Nat := if cut && mode == "kill" then some wi else none
-      let r := finalRun new fault stop prog 0 (startRun (initFS old))
-      let c := afterKill r.fs
-      let tm := tmpContents r.fs
-      let tms := if tm.isEmpty then "none" else String.intercalate ";" tm
-      s!"target={hexOpt c} tmps={tms} err={if r.err then 1 else 0} verdict={verdict c old new}"
+    | some r => showFS r old new
+
+/-- a two-step history: save 1 (old -> new) cut at byte k, the process restarts on what is left, one more
+change is saved without fault (new2a if the store shows old, new2b if it shows new) -/
+def doHist (kind leftover : String) (lo : Bytes) (mode : String) (k : Nat) (old new new2a new2b : Bytes) : String :=
+  match saveProg? with
+  | none => "gen-undecodable"
+  | some prog =>
+    match runCut prog mode k new (mkFS old kind leftover lo) with
+    | none => "no-write-in-program"
+    | some r1 =>
+      let shown := afterKill r1.fs
+      let step1 := verdict shown old new
+      let new2 := if shown == some new then new2b else new2a
+      let r2 := finalRun new2 none none prog 0 (startRun r1.fs)
+      s!"step1={step1} " ++ showFS r2 new2a new2b
 
 def natList (xs : List Nat) : String := String.intercalate "," (xs.map toString)
 
@@ -86,8 +126,16 @@ def stepC20 (u : Unit) (line : String) : Unit × String :=
     | _, _ => (u, "gen-undecodable")
   | ["save", mode, k, old, new] =>
     match k.toNat?, ofHex? old, ofHex? new with
-    | some k, some o, some n => (u, doSave mode k o n)
+    | some k, some o, some n => (u, doSave mode k o n "reg" "none" [])
     | _, _, _ => (u, "bad-op")
+  | ["save", mode, k, old, new, kind, leftover, lo] =>
+    match k.toNat?, ofHex? old, ofHex? new, ofHex? lo with
+    | some k, some o, some n, some l => (u, doSave mode k o n kind leftover l)
+    | _, _, _, _ => (u, "bad-op")
+  | ["hist", kind, leftover, lo, mode, k, old, new, n2a, n2b] =>
+    match k.toNat?, ofHex? old, ofHex? new, ofHex? lo, ofHex? n2a, ofHex? n2b with
+    | some k, some o, some n, some l, some a, some b => (u, doHist kind leftover l mode k o n a b)
+    | _, _, _, _, _, _ => (u, "bad-op")
   | "stop" :: toks => (u, doStop toks)
   | _ => (u, "bad-op")
 
